@@ -50,6 +50,25 @@ pub fn eval_in_scope(ctx: &Context, expr: &String) -> (r: Result<JsonValue, ActE
 // R10: `.unwrap_or_else(|err| { <log>; JsonValue::Null })`
 #[verifier::external_body]
 pub fn or_null(r: Result<JsonValue, ActError>) -> (v: JsonValue) ensures v == (if r is Ok { r->Ok_0 } else { JsonValue::Null }) { unimplemented!() }
+// the task of a context as far as a filler could use it besides `find`: its globals (Task::vars, under contract in U-data: outermost holder last)
+pub uninterp spec fn globals(ctx: Context) -> Map<Key, JsonValue>;
+#[verifier::external_body]
+pub struct TaskView { _p: u8 }
+impl TaskView {
+    pub uninterp spec fn of(&self) -> Context;
+    #[verifier::external_body]
+    pub fn vars(&self) -> (r: Vars) ensures r@ == globals(self.of()) { unimplemented!() }
+    #[verifier::external_body]
+    pub fn find(&self, k: &String) -> (r: Option<JsonValue>) ensures r == found(self.of(), k@) { unimplemented!() }
+}
+impl Context {
+    #[verifier::external_body]
+    pub fn task(&self) -> (r: TaskView) ensures r.of() == *self { unimplemented!() }
+}
+impl Vars {
+    #[verifier::external_body]
+    pub fn get_value(&self, k: &String) -> (r: Option<&JsonValue>) ensures r is Some <==> self@.dom().contains(k@), r is Some ==> *r->Some_0 == self@[k@] { unimplemented!() }
+}
 // R7: `ctx.task().find(k)`
 #[verifier::external_body]
 pub fn find_in_scope(ctx: &Context, k: &String) -> (r: Option<JsonValue>) ensures r == found(*ctx, k@) { unimplemented!() }
